@@ -8,7 +8,9 @@ MCSources == {"CABF_BR", "CABF_SMIME_BR", "CABF_CS_BR", "RFC5280"}
 MCWindows == {<<Zero, Zero>>, <<E, Zero>>, <<Zero, I>>, <<E, I>>, <<E2, I>>}
 MCTimes   == {PlusSec(E, -1), E, PlusSec(E, 1), PlusSec(E2, -1), E2, <<730700, 5>>, PlusSec(I, -1), I, PlusSec(I, 1)}
 MCFacts   == [ekus : SUBSET {0, 1, 4}, unk : {0, 1},
-              pols : {{}, {"2.23.140.1.2.1"}, {"2.23.140.1.5.1.1"}, {"2.23.140.1.4.1"}, {"1.2.3"}, {"2.23.140.1.2.1", "2.23.140.1.4.1"}},
+              pols : {{}, {"2.23.140.1.2.1"}, {"2.23.140.1.5.1.1"}, {"2.23.140.1.4.1"}, {"1.2.3"}, {"2.23.140.1.2.1", "2.23.140.1.4.1"},
+                      \* near misses: an identifier that extends or truncates a scope identifier is no indication
+                      {"2.23.140.1.4.1.1", "2.23.140.1.3.7"}, {"2.23.140.1.2.1.1", "2.23.140.1.5.1.1.1"}, {"2.23.140.1.4", "2.23.140.1.2", "2.23.140.1.5.1"}},
               email : BOOLEAN]
 MCFactsBig == [ekus : SUBSET {0, 1, 4, 2}, unk : {0, 1},
               pols : SUBSET {"2.23.140.1.2.1", "2.23.140.1.5.1.1", "2.23.140.1.4.1", "1.2.3"}, email : BOOLEAN]
